@@ -1,0 +1,83 @@
+//go:build verif
+
+// Contracts for govc (contract-based deductive verification, see /verif/DESIGN.md).
+// Comment-only file: it adds no code and is compiled only with -tags verif.
+
+package service
+
+// The batch lock protects the open batch: its columns, its size and the
+// promises waiting for its outcome.  (svc.running and svc.client are read
+// without the lock by design; they are not part of the invariant.)
+//@ lockinv InsertServiceV2.mtx protects columns,size,results,insertCtx,insertCancel,lastSend: self.size >= 0 && len(self.columns) >= 1
+
+// Function-valued configuration fields (set once by the constructors in
+// writer/service/impl; assumed, the six processRequest closures are not
+// checked against this contract here).
+//@ fieldfunc InsertServiceV2.processRequest(req, res)
+//@   modifies nothing
+//@   ensures result0 >= 0 && len(result1) == len(res)
+//@ fieldfunc InsertServiceV2.acquireColumns()
+//@   modifies nothing
+//@   ensures len(result) >= 1
+//@ fieldfunc InsertServiceV2.insertCancel()
+//@   modifies nothing
+//@ fieldfunc InsertServiceV2.OnBeforeInsert()
+//@   modifies nothing
+//@ fieldfunc InsertServiceV2.V3Session()
+//@   modifies nothing
+
+//@ iface (github.com/metrico/qryn/writer/utils/helpers.SizeGetter).GetSize()
+//@   modifies nothing
+//@   ensures result >= 0
+//@ iface (IColPoolRes).Input()
+//@   modifies nothing
+
+//@ func (*InsertServiceV2).setState
+//@   modifies svc.state
+//@ func (*InsertServiceV2).IngestSize
+//@   modifies nothing
+
+// settled(p, e): if p was pending when the function was entered, it is now
+// completed with exactly outcome e.
+//@ spec fn samePending(p *promise.Promise[uint32]) bool = p.pending == old(p.pending)
+//@ spec fn stillPendingOr(p *promise.Promise[uint32], e error) bool = old(p.pending) == 1 ==> p.pending == 1 || (p.pending == 0 && p.err == e)
+//@ spec fn settled(p *promise.Promise[uint32], e error) bool = old(p.pending) == 1 ==> p.pending == 0 && p.err == e
+
+// One flush: at most one INSERT is sent; every promise of the batch that was
+// still pending is completed with exactly the outcome of THAT insert, and only
+// after it returned (the ghost doErr does not exist before).
+//@ func (*InsertServiceV2).fetchLoopIteration [C01]
+//@   check at-most-one-insert: doCalls == old(doCalls) || doCalls == old(doCalls) + 1
+//@   check outcome: doCalls == old(doCalls) + 1 ==> (forall k int :: 0 <= k && k < len(waiting) ==> settled(waiting[k], doErr))
+//@   check whole-batch: doCalls == old(doCalls) + 1 ==> len(waiting) == len(portion.res) && (forall k int :: 0 <= k && k < len(waiting) ==> waiting[k] == portion.res[k])
+//@   loop 1:
+//@     invariant rangeindex + 1 <= len(input) && len(input) == len(portion.cols) && doCalls == old(doCalls)
+//@     invariant len(waiting) == len(portion.res) && (forall k int :: 0 <= k && k < len(waiting) ==> waiting[k] == portion.res[k] && samePending(waiting[k]))
+//@     modifies elems(input)
+
+// releaseWaiting: completes the batch's promises with the given outcome.
+//@ func (*InsertServiceV2).fetchLoopIteration$1
+//@   loop 1:
+//@     invariant forall k int :: 0 <= k && k <= rangeindex && k < len(waiting) ==> settled(waiting[k], err)
+//@     invariant forall k int :: 0 <= k && k < len(waiting) ==> stillPendingOr(waiting[k], err)
+//@     modifies allof(promise.Promise[uint32].pending), allof(promise.Promise[uint32].err), allof(promise.Promise[uint32].res)
+
+// Handing the batch over: columns, promises and size are taken together under
+// the lock and the open batch restarts empty.
+//@ func (*InsertServiceV2).swapBuffers [C01]
+//@   modifies svc.insertCtx, svc.insertCancel, svc.columns, svc.lastSend, svc.size, svc.results
+//@   ensures result0 != nil ==> fresh(result0) && len(result0.cols) >= 1
+//@   check together: result0 != nil ==> result0.cols == columns && result0.res == results && result0.size == size && size != 0
+//@   check restarted: result0 != nil ==> svc.size == 0 && isnil(svc.results)
+//@   check untouched: result0 == nil ==> svc.size == 0
+
+// Submitting rows: under the batch lock the request's rows go into the open
+// batch's columns; the promise is either completed at once with (0, err) —
+// service stopped, conversion error, or nothing inserted — or appended to the
+// open batch's waiting list in the same critical section.
+//@ func (*InsertServiceV2).Request [C01]
+//@   ensures fresh(result)
+//@ func (*InsertServiceV2).Request$1 [C01]
+//@   requires p.pending == 1 && size >= 0
+//@   check queued-or-settled: (p.pending == 0 && p.res == 0 && (err != nil || inserted == 0)) ||
+//@          (p.pending == 1 && err == nil && inserted != 0 && len(svc.results) >= 1 && svc.results[len(svc.results) - 1] == p)
